@@ -1211,7 +1211,7 @@ def read_ms5_xsf(path, prefix, qc, corr, sep="r", **kwargs):
                 names.append(prefix)
     if 'idl' in kwargs:
         expected_idl = kwargs.get('idl')
-    names = sorted(names)
+    names = [name for _, name in sorted(zip(files, names), key=lambda pair: pair[0])]
     files = sorted(files)
 
     cnfgs = []
